@@ -137,7 +137,7 @@ def main(ids):
                 if "NameLookupError" in new and "import" not in new and fn == CL:
                     src = src.replace("from monkeytype.exceptions import MonkeyTypeError", "from monkeytype.exceptions import MonkeyTypeError, NameLookupError")
                 open(path, "w").write(src.replace(old, new) + extra)
-                env = dict(os.environ, VERIF_REPO=wt, VERIF_NO_EVIDENCE="1")
+                env = dict(os.environ, VERIF_REPO=wt, VERIF_NO_EVIDENCE="1", VERIF_STOP_ON_VIOLATION="1")
                 env.pop("VERIF_REEXEC", None)
                 t = time.time()
                 p = sh(os.path.join(VERIF, "check"), pid, "--tier", "quick", env=env, cwd=VERIF)
